@@ -280,6 +280,13 @@ def shard_main(ctx):
     if ctx.shard == 0:
         for t in DIRECTED:
             judge(ctx, astx.parse_expr(t), {"n": 2, "empty": 1, "stacked": 1}, {"directed": t})
+        # user functions named like a call_ attribute of the transformer classes that is no documented operator (none on a right tree)
+        from ..history import HANDLER_NAME_TEMPLATES, handler_named_functions
+
+        for x in handler_named_functions():
+            for t in HANDLER_NAME_TEMPLATES:
+                ctx.count("queries-calling-a-function-named-like-an-undocumented-handler")
+                judge(ctx, astx.parse_expr(t.format(X=x)), {"n": 1}, {"directed": t.format(X=x)})
     for i in range(N_CASES[ctx.tier]):
         if ctx.out_of_time():
             ctx.count("stopped-by-time-budget")
